@@ -423,8 +423,8 @@ class Machine:
         ins = self.ins
         loops = {}
         for k, i in enumerate(ins):
-            if (i.op in JCC or i.op in BCC or i.op in ('JMP', 'B')) and i.args and i.args[0].isdigit():
-                t = self.idx.get(int(i.args[0]))
+            if (i.op in JCC or i.op in BCC or i.op in ('JMP', 'B', 'CBZ', 'CBNZ', 'TBZ', 'TBNZ')) and i.args and i.args[-1].isdigit():
+                t = self.idx.get(int(i.args[-1]))
                 if t is not None and t <= k:
                     loops.setdefault(t, []).append(k)
         self.loops = loops
@@ -920,7 +920,7 @@ class Machine:
     def written_arm64(self, i, k, inner, delta, havoc):
         op, a = i.op, i.args
         base = op.split('.')[0]
-        if base in ('CMP', 'CMN', 'TST', 'B', 'JMP', 'RET', 'WORD') or base in BCC:
+        if base in ('CMP', 'CMN', 'TST', 'B', 'JMP', 'RET', 'WORD', 'CBZ', 'CBNZ', 'TBZ', 'TBNZ') or base in BCC:
             return
         def bump(r, c):
             if k in inner:
@@ -997,6 +997,35 @@ class Machine:
             s1 = dict(st); s2 = dict(st)
             s1['pc'] = st['pc'] + [c]; s2['pc'] = st['pc'] + [z3.Not(c)]
             return [(self.idx[int(a[0])], s1), (nxt, s2)]
+        if base in ('CBZ', 'CBNZ', 'TBZ', 'TBNZ') and a[-1].isdigit():
+            r = val(a[-2])
+            if r is not None:
+                if r.t and not self.allowed('ct-branch', i):
+                    self.check(st, 'ct-branch', i, z3.BoolVal(False), 'conditional branch depends on loaded (secret) data')
+                elif not r.t:
+                    self.taint_ok('ct-branch', i)
+                if base in ('CBZ', 'CBNZ'):
+                    c = (r.e == 0) if base == 'CBZ' else (r.e != 0)
+                else:
+                    self.fresh_n += 1
+                    c = z3.Bool('br!%d' % self.fresh_n)
+                s1 = dict(st); s2 = dict(st)
+                s1['pc'] = st['pc'] + [c]; s2['pc'] = st['pc'] + [z3.Not(c)]
+                return [(self.idx[int(a[-1])], s1), (nxt, s2)]
+        if base in ('ORR', 'AND', 'EOR', 'BIC', 'ORN', 'EON', 'LSL', 'LSR', 'ASR', 'ROR', 'MUL', 'NEG', 'MVN', 'ANDS', 'UBFX', 'SBFX', 'REV', 'REVW', 'CLZ') and a[-1] in self.GPR:
+            t = False
+            for x in a[:-1]:
+                v = val(x)
+                if v is None:
+                    t = None; break
+                t = t or v.t
+            if t is not None:
+                if len(a) == 2 and base not in ('NEG', 'MVN', 'REV', 'REVW', 'CLZ'):
+                    t = t or regs[a[-1]].t
+                ns = setreg(a[-1], Val(self.fresh('alu'), t))
+                if base == 'ANDS':
+                    ns['flags'] = ('res', ns['regs'][a[-1]].e, None, t)
+                return [(nxt, ns)]
         if base == 'CMP' and len(a) == 2:
             x, y = val(a[0]), val(a[1])
             if x is not None and y is not None:
